@@ -26,6 +26,11 @@ Exploration (configuration space, invariants per iterate; nothing sampled):
        (iii) Fejer / Lyapunov monotonicity is COUNTED as a diagnostic, never judged.
  (c) power_method_opnorm(op, xstart, maxiter) <= ||op|| (1 + 1e-12) for all pool matrices, all
      basis / alphabet start vectors, maxiter 2..20, weighted spaces, both arms of the code.
+ (d) histories of ONE operator object: an earlier use (evaluation, another solver call, a coarse
+     op.norm(estimate=True, xstart=.., maxiter=.., rtol=..) with every basis / alphabet / weakly
+     aligned / noise start) followed by the default step rules on the SAME object: landweber
+     (omega=None), pdhg_stepsize, douglas_rachford_pd_stepsize, and pdhg / douglas_rachford_pd run
+     with default steps on the non-smooth pool - the defaults stay admissible w.r.t. the TRUE norm.
 """
 import itertools
 import zlib
@@ -1021,6 +1026,229 @@ def run_steprule(cfg):
         viol += _viol(site, first)
     return {'evals': evals, 'viol': viol, 'sig': sorted(sigs), 'skipped': skipped}
 
+
+# ---- histories of ONE operator object -----------------------------------------------------------
+# The default step rules (landweber omega=None, pdhg_stepsize, douglas_rachford_pd_stepsize) ask
+# the operator OBJECT for Operator.norm(estimate=True).  The object may have been used before:
+# evaluated, handed to another solver, or asked for a norm estimate with the caller's own
+# arguments (Operator.norm: "kwargs: If estimate is True, pass these arguments to the
+# power_method_opnorm call" - few iterations / an own start vector / a coarse tolerance are
+# legitimate there, the power method may under-estimate).  Whatever happened to the object
+# before, the defaults are documented as admissible ("0 < omega < 2/||A||^2 ... Default
+# 1/||A||^2", "tau sigma ||L||^2 < 1", "tau sum sigma_i ||L_i||^2 < 4"), judged against the TRUE
+# norm, and Landweber with its default relaxation must not increase the residual.
+
+def _fresh_estimate(op):
+    """What Operator.norm(estimate=True) gives for an operator object without a past (the base
+    class documents it as power_method_opnorm(op); classes that override norm know it exactly)."""
+    if type(op).norm is not odl.Operator.norm:
+        return op.norm(estimate=True)
+    from odl.operator.oputils import power_method_opnorm
+    return power_method_opnorm(op)
+
+
+def _coarse_kwargs(op, pre, A, wx, wy):
+    """keyword arguments of the earlier, coarse norm request `pre` (a short name)"""
+    even = op.adjoint is not op             # "maxiter needs to be an even number"
+    n = A.shape[1]
+    short = 2 if even else 1
+    if pre.startswith('e'):                  # e<k>: basis vector, shortest admissible run
+        return {'xstart': op.domain.element(np.eye(n)[int(pre[1:])]), 'maxiter': short}
+    if pre.startswith('a'):                  # a<i>: i-th vector of {-1, 1/2, 2}^n
+        t = _alph_starts(n)[int(pre[1:])]
+        return {'xstart': op.domain.element(np.array(t)), 'maxiter': short}
+    if pre == 'weak':                        # start (almost) orthogonal to the dominant direction
+        return {'xstart': op.domain.element(R.weak_start(A, wx, wy)), 'maxiter': short}
+    if pre == 'weak-list':                   # the same as a plain list ("element-like")
+        return {'xstart': R.weak_start(A, wx, wy).tolist(), 'maxiter': short}
+    if pre == 'weak4':
+        return {'xstart': op.domain.element(R.weak_start(A, wx, wy)), 'maxiter': 2 * short}
+    if pre == 'weak-rtol':                   # many iterations allowed, coarse stopping tolerance
+        return {'xstart': op.domain.element(R.weak_start(A, wx, wy, 2.0 ** -4)), 'maxiter': 20,
+                'rtol': 0.5}
+    if pre == 'noise':                       # default start (seeded), shortest admissible run
+        return {'maxiter': short}
+    raise KeyError(pre)
+
+
+def _alph_starts(n):
+    # {-1, 1/2, 2}^n (n = 3: the 9 palindromic members)
+    return [t for t in itertools.product([-1.0, 0.5, 2.0], repeat=n) if n < 3 or t[0] == t[-1]]
+
+
+def _history_pres(n):
+    return (['none', 'evaluated', 'solver-before'] + ['e%d' % k for k in range(n)] +
+            ['a%d' % i for i in range(len(_alph_starts(n)))] +
+            ['weak', 'weak-list', 'weak4', 'weak-rtol', 'noise'])
+
+
+def run_history(cfg):
+    n_ = cfg['shape'][1]
+    wk = cfg['w']
+    if cfg['arm'] == 'selfadjoint':
+        Sm = _scaled_spd(n_, cfg['mat'], cfg['ill'])
+        w_ = S.weights(_rn(n_, wk))
+        A = Sm / w_[:, None] * cfg.get('ascale', 1.0)
+
+        def make():
+            sp = _rn(n_, wk)
+            return WMat(A, sp, sp, selfadj=True)
+    else:
+        A = _scaled_rect(tuple(cfg['shape']), cfg['mat'], cfg['ill']) * cfg.get('ascale', 1.0)
+
+        def make():
+            return _matop(A, wk, 'ref' if wk == 'wa' else 'odl')
+    op = make()
+    if cfg['arm'] != 'selfadjoint' and adjoint_defect(op) > 1e-12:
+        return {'evals': 0, 'skipped': 1, 'trivial': True, 'sig': 'adjoint-inexact'}
+    wx, wy = S.weights(op.domain), S.weights(op.range)
+    m, n = A.shape
+    nrm = R.opnorm(A, wx, wy)
+    Aadj = R.adjoint_matrix(A, wx, wy)
+    tag = '%s,%s' % (cfg['arm'], _WN[wk])
+    first, evals, sigs, skipped = {}, 0, set(), 0
+    nstale = 0
+    # without a past the estimate (seeded noise start) must be good enough for a verdict, exactly
+    # as in run_landweber / run_steprule
+    _seed(cfg)
+    if _fresh_estimate(make()) < EST_OK * nrm:
+        return {'evals': 0, 'skipped': 1, 'trivial': True, 'sig': 'hist:fresh-estimate-poor'}
+    b = None
+    for cand in ([1.0, -1.0, 2.0], [2.0, 0.0, -1.0], [0.0, 1.0, 1.0]):
+        if np.any(Aadj.dot(np.array(cand[:m]))):
+            b = np.array(cand[:m])
+            break
+    for pre in _history_pres(n):
+        op = make()                          # ONE object for the whole history
+        what = 'none'
+        coarse = None
+        # ---- the past of the object
+        try:
+            if pre == 'evaluated':
+                what = 'op(x), op.adjoint(y), op.adjoint.norm(estimate=True, maxiter=2)'
+                op(op.domain.one())
+                op.adjoint(op.range.one())
+                _seed(cfg)
+                op.adjoint.norm(estimate=True, maxiter=2)
+            elif pre == 'solver-before':
+                what = 'landweber(op, 0, rhs, 2) and pdhg_stepsize(op)'
+                _seed(cfg)
+                odl.solvers.landweber(op, op.domain.zero(), op.range.one(), 2)
+                odl.solvers.pdhg_stepsize(op)
+            elif pre != 'none':
+                kw = _coarse_kwargs(op, pre, A, wx, wy)
+                what = 'op.norm(estimate=True, %s)' % ', '.join(
+                    '%s=%s' % (k, S.to_flat(v).tolist() if hasattr(v, 'space') else v)
+                    for k, v in sorted(kw.items()))
+                _seed(cfg)
+                coarse = op.norm(estimate=True, **kw)
+                evals += 1
+                # the property's clause on the estimate holds for this entry point as well
+                if not coarse <= nrm * (1 + 1e-12):
+                    _first(first, ('Operator.norm[estimate,%s]' % tag, 'estimate_exceeds_norm'),
+                           'A=%s wx=%s wy=%s: %s = %r > true norm %r' % (
+                               A.tolist(), wx.tolist(), wy.tolist(), what, coarse, nrm))
+        except ValueError as e:
+            if 'reached ``x=0``' in str(e):
+                skipped += 1                 # start vector in the kernel: documented failure
+                continue
+            _first(first, ('Operator.norm[estimate,%s]' % tag, 'raises:ValueError'),
+                   'A=%s %s: %r' % (A.tolist(), what, e))
+            continue
+        except Exception as e:
+            _first(first, ('Operator.norm[estimate,%s]' % tag, 'raises:' + type(e).__name__),
+                   'A=%s %s: %r' % (A.tolist(), what, e))
+            continue
+        armed = coarse is not None and coarse < nrm / np.sqrt(2.0)
+        past = 'fresh-operator' if pre == 'none' else 'after-earlier-use-of-the-operator'
+        info = 'A=%s wx=%s wy=%s (||A||=%r); earlier on the SAME operator object: %s%s' % (
+            A.tolist(), wx.tolist(), wy.tolist(), nrm, what,
+            '' if coarse is None else ' = %r' % coarse)
+        # diagnostic (counted, not judged): a later request with other arguments is answered
+        # with the old value
+        if coarse is not None:
+            e0 = op.domain.element(np.eye(n)[0])
+            try:
+                again = op.norm(estimate=True, xstart=e0, maxiter=20, rtol=0.0, atol=0.0)
+                evals += 1
+                if not again <= nrm * (1 + 1e-12):
+                    _first(first, ('Operator.norm[estimate,%s]' % tag, 'estimate_exceeds_norm'),
+                           '%s; then op.norm(estimate=True, xstart=e_0, maxiter=20, rtol=0, '
+                           'atol=0) = %r' % (info, again))
+                from odl.operator.oputils import power_method_opnorm
+                if again != power_method_opnorm(op, xstart=e0, maxiter=20, rtol=0.0, atol=0.0):
+                    nstale += 1
+            except ValueError:
+                pass
+        # ---- landweber with the default relaxation
+        site = 'landweber[default-omega,%s]' % past
+        if b is not None:
+            x0 = np.zeros(n)
+            x = op.domain.element(x0.copy())
+            rec = Rec()
+            _seed(cfg)
+            try:
+                odl.solvers.landweber(op, x, op.range.element(b), 8, callback=rec)
+                evals += 1
+                g = Aadj.dot(A.dot(x0) - b)
+                om = float(np.sum(wx * (x0 - rec.it[0]) * g) / np.sum(wx * g * g))
+                if not 0 < om * nrm ** 2 < 2.0:
+                    _first(first, (site, 'default_omega_violates_documented_condition'),
+                           '%s; then landweber(op, 0, %s, 8): default omega=%r, omega*||A||^2=%r '
+                           'not in (0, 2)' % (info, b.tolist(), om, om * nrm ** 2))
+                else:
+                    res = [R.wnorm(A.dot(z) - b, wy) for z in [x0] + rec.it]
+                    tol = 1e-12 * (1.0 + R.wnorm(b, wy) + max(res))
+                    for k in range(len(res) - 1):
+                        if res[k + 1] > res[k] + tol:
+                            _first(first, (site, 'residual_increases'),
+                                   '%s; then landweber(op, 0, %s, 8) default omega=%r: step %d, '
+                                   'residuals=%s' % (info, b.tolist(), om, k + 1,
+                                                     ['%.6e' % r for r in res]))
+                            break
+                sigs.add('hist:lw:%s:%s:%s' % (pre.rstrip('0123456789'), armed,
+                                               0 < om * nrm ** 2 < 2.0))
+            except Exception as e:
+                _first(first, (site, 'raises:' + type(e).__name__), '%s: %r' % (info, e))
+        # ---- the step-size rules
+        site = 'pdhg_stepsize[%s]' % past
+        for tau_in, sig_in in [(None, None), (0.3 / nrm, None), (None, 3.0 / nrm)]:
+            _seed(cfg)
+            try:
+                tau, sig = odl.solvers.pdhg_stepsize(op, tau_in, sig_in)
+            except Exception as e:
+                _first(first, (site, 'raises:' + type(e).__name__), '%s: %r' % (info, e))
+                continue
+            evals += 1
+            ok = tau > 0 and sig > 0 and tau * sig * nrm ** 2 < 1.0
+            if not ok:
+                _first(first, (site, 'steps_violate_documented_condition'),
+                       '%s; then pdhg_stepsize(op, tau=%r, sigma=%r) = (%r, %r): tau*sigma*||L||^2 '
+                       '= %r, must be < 1' % (info, tau_in, sig_in, tau, sig,
+                                              tau * sig * nrm ** 2))
+            sigs.add('hist:pdhg:%s:%s:%s' % (pre.rstrip('0123456789'), armed, ok))
+        site = 'douglas_rachford_pd_stepsize[%s]' % past
+        for Ls, tau_in, sig_in in [([op], None, None), ([op, op], None, None),
+                                   ([op], 0.5 / nrm, None), ([op], None, [0.5 / nrm ** 2])]:
+            _seed(cfg)
+            try:
+                tau, sig = odl.solvers.douglas_rachford_pd_stepsize(Ls, tau_in, sig_in)
+            except Exception as e:
+                _first(first, (site, 'raises:' + type(e).__name__), '%s: %r' % (info, e))
+                continue
+            evals += 1
+            val = tau * sum(s_ * nrm ** 2 for s_ in sig)
+            ok = tau > 0 and all(s_ > 0 for s_ in sig) and len(sig) == len(Ls) and val < 4.0
+            if not ok:
+                _first(first, (site, 'steps_violate_documented_condition'),
+                       '%s; then douglas_rachford_pd_stepsize([op]*%d, tau=%r, sigma=%r) = (%r, %r)'
+                       ': tau*sum(sigma_i ||L_i||^2) = %r, must be < 4' % (
+                           info, len(Ls), tau_in, sig_in, tau, list(sig), val))
+            sigs.add('hist:dr:%s:%s:%s' % (pre.rstrip('0123456789'), armed, ok))
+    viol = [{'site': k[0], 'symptom': k[1], 'detail': v} for k, v in first.items()]
+    return {'evals': evals, 'viol': viol, 'sig': sorted(sigs), 'skipped': skipped,
+            'stale': nstale}
+
 # ----------------------------------------------------------------------------------------------
 # (b) non-smooth solvers: problem pool built backwards from a primal-dual pair
 
@@ -1304,12 +1532,13 @@ def build_problem(rec):
 
 
 def _combined(P):
-    """single (g, L) for pdhg / admm"""
+    """single (g, L) for pdhg / admm (ONE BroadcastOperator object per problem, as a user who
+    assembles the problem once and then calls step rule and solver would have)"""
     if len(P.L_list) == 1:
         return P.g_list[0], P.L_list[0]
-    L = odl.BroadcastOperator(*P.L_list)
-    g = odl.solvers.SeparableSum(*P.g_list)
-    return g, L
+    if getattr(P, '_comb', None) is None:
+        P._comb = (odl.solvers.SeparableSum(*P.g_list), odl.BroadcastOperator(*P.L_list))
+    return P._comb
 
 
 PDHG = 'pdhg'
@@ -1628,7 +1857,7 @@ def _effective_steps(solver, P, st, cfg):
         _seed(cfg)
         tau, sigma = odl.solvers.pdhg_stepsize(L, st['tau'], st['sigma'])
         _seed(cfg)
-        est = L.norm(estimate=True)
+        est = _fresh_estimate(L)
         _seed(cfg)
         if tau * sigma * P.ref.Lnorm ** 2 < 1.0:
             return (tau, sigma), True
@@ -1638,7 +1867,7 @@ def _effective_steps(solver, P, st, cfg):
         _seed(cfg)
         tau, sigma = odl.solvers.douglas_rachford_pd_stepsize(P.L_list, st['tau'], st['sigma'])
         _seed(cfg)
-        ests = [Li.norm(estimate=True) for Li in P.L_list]
+        ests = [_fresh_estimate(Li) for Li in P.L_list]
         _seed(cfg)
         if tau * sum(s * nr ** 2 for s, nr in zip(sigma, P.norms)) < 4.0:
             return (tau, sigma), True
@@ -1691,6 +1920,35 @@ def _pg_objective(P):
     return diag
 
 
+def _ns_history(P, cfg):
+    """Ask every operator object of the problem for a coarse norm estimate (start vector
+    cfg['pre']: 'e0' / 'elast' = first / last basis vector, 'weak' = almost orthogonal to the
+    dominant direction; shortest admissible run).  -> description for the report."""
+    done = []
+    ops = [(Li, A, wy) for Li, A, wy in zip(P.L_list, P.Lmats, P.wys)]
+    if len(P.L_list) > 1:
+        ops.append((_combined(P)[1], P.ref.L, P.ref.wy))
+    seen = set()
+    for Li, A, wy in ops:
+        if id(Li) in seen:
+            continue
+        seen.add(id(Li))
+        n = A.shape[1]
+        if cfg['pre'] == 'weak':
+            v = R.weak_start(A, P.wx, wy)
+        else:
+            v = np.eye(n)[0 if cfg['pre'] == 'e0' else n - 1]
+        kw = {'xstart': S.from_flat(P.X, v), 'maxiter': 1 if Li.adjoint is Li else 2}
+        try:
+            est = Li.norm(estimate=True, **kw)
+        except ValueError as e:             # "reached x=0": start vector in the kernel
+            est = 'ValueError(%s)' % e
+        done.append('%s.norm(estimate=True, xstart=%s, maxiter=%d) = %s [true %r]' % (
+            type(Li).__name__, v.tolist(), kw['maxiter'], est,
+            R.opnorm(A, P.wx, wy)))
+    return '; earlier on the SAME operator objects: ' + ', '.join(done)
+
+
 def run_ns(cfg):
     fam = FAMS[cfg['fam']]
     solver = cfg['solver']
@@ -1711,16 +1969,35 @@ def run_ns(cfg):
     iters = []
     acc_iters = []
     live = not cfg.get('deg')
-    for st in _grids(solver, P, tier):
+    grid = _grids(solver, P, tier)
+    past = ''
+    if cfg.get('pre'):
+        # history of the operator objects (see run_history): every L_i, and the assembled
+        # BroadcastOperator, has earlier been asked for a coarse norm estimate with the caller's
+        # own arguments; the solver is then run with its DEFAULT steps on the same objects
+        past = _ns_history(P, cfg)
+        grid = [st for st in grid if st['tag'] == 'default']
+        if solver == PDHG:
+            grid += [{'tau': 0.5 / P.ref.Lnorm, 'sigma': None, 'tag': 'tau-only'},
+                     {'tau': None, 'sigma': 2.0 / P.ref.Lnorm, 'tag': 'sigma-only'}]
+        elif solver == DR:
+            grid += [{'tau': 1.0 / sum(P.norms), 'sigma': None, 'lam': 1.0, 'tag': 'tau-only'},
+                     {'tau': None, 'sigma': [1.0 / nr for nr in P.norms], 'lam': 1.0,
+                      'tag': 'sigma-only'}]
+    for st in grid:
         accel = bool(st.get('acc'))
         if accel and fam.get('no_accel'):
             continue
-        site = '%s,%s]' % (site0, 'default-steps' if st['tag'] in ('default', 'tau-only',
-                                                                    'sigma-only')
+        site = '%s,%s]' % (site0, ('default-steps' + (',after-earlier-norm-estimate' if past
+                                                      else ''))
+                           if st['tag'] in ('default', 'tau-only', 'sigma-only')
                            else ('accelerated-steps' if accel else 'explicit-steps'))
-        info = 'problem=%s steps={%s}' % (
-            dict((k, v) for k, v in cfg.items() if k not in ('kind', 'tier', 'K')), st['tag'])
+        info = 'problem=%s steps={%s}%s' % (
+            dict((k, v) for k, v in cfg.items() if k not in ('kind', 'tier', 'K')), st['tag'],
+            past)
         eff, adm = _effective_steps(solver, P, st, cfg)
+        if past:
+            sigs.add('%s:history:%s:%s' % (solver, cfg['pre'], adm))
         if adm is None:
             # power-method estimate more than 2.5 % below the true norm (random start, early
             # stop on a plateau): the 10 % margin of the rule cannot absorb it; the property
@@ -1993,6 +2270,28 @@ def configs(tier):
     for nb in RULE_BLOCKS:
         for stt in ('broadcast', 'reduction', 'diagonal'):
             cfgs.append({'kind': 'steprule', 'struct': stt, 'norms': nb})
+    # ---- histories of one operator object: earlier uses x default step rules afterwards
+    for shape in ([2, 2], [3, 2], [2, 3], [3, 3]):
+        red = _pool(shape, small)
+        if shape == [3, 3]:
+            red = red[::8]
+        for ci, (ill, wk) in enumerate(COMBOS):
+            pool = red if thorough else (red[::2] if ci == 0 else red[ci::5])
+            for t in pool:
+                base = {'kind': 'history', 'arm': 'normal', 'shape': shape, 'mat': t, 'ill': ill,
+                        'w': wk}
+                cfgs.append(base)
+                if t in red[:2]:
+                    for asc in (0.0625, 4.0):       # operators of small / large norm
+                        cfgs.append(dict(base, ascale=asc))
+    for wk in ('plain', 'wa', 'w2'):
+        for n in (2, 3):
+            for i, t in enumerate(spd[n]):
+                if n == 3 and (i % 8 if thorough else i % 24):
+                    continue
+                for ill in (0, 1):
+                    cfgs.append({'kind': 'history', 'arm': 'selfadjoint', 'shape': [n, n],
+                                 'mat': t, 'ill': ill, 'w': wk})
     for spn in ('rn3', 'rn3w2', 'rn3wa', 'ud3', 'rn2'):
         cfgs.append({'kind': 'power_ref', 'space': spn, 'op': 'MultiplyOperator'})
         if spn in XSPACES and XSPACES[spn][0] == 'rn':
@@ -2031,6 +2330,26 @@ def configs(tier):
                         if deg:
                             c['deg'] = 1
                         lst.append(c)
+    # the same solvers run with DEFAULT steps on operator objects with a past (coarse norm
+    # estimate requested earlier): one x* per family and space, every start of the coarse request
+    for fam, F in FAMS.items():
+        lst = []
+        per_fam.append(lst)
+        if F.get('thorough_only') and not thorough:
+            continue
+        for xi, X in enumerate(F['X']):
+            if not thorough and xi > 0 and fam not in ('fused',):
+                continue
+            n = S.flat_size(_xspace(X))
+            pts = [t for t in itertools.product(F['xv'], repeat=n) if t == t[::-1]]
+            xs = pts[min(5, len(pts) - 1)]
+            for sv in F['solvers']:
+                if sv not in (PDHG, DR):
+                    continue
+                for pre in ('weak', 'e0', 'elast'):
+                    lst.append({'kind': 'ns', 'fam': fam, 'X': X, 'xs': list(xs),
+                                'pat': 'z' if F.get('zero_dual_only') else 0, 'solver': sv,
+                                'tier': tier, 'K': K_LIVE, 'pre': pre})
     for grp in itertools.zip_longest(*per_fam):
         cfgs.extend(c for c in grp if c is not None)
     if thorough:
@@ -2054,7 +2373,7 @@ def configs(tier):
     return cfgs
 
 
-_RUN = {'steprule': run_steprule, 'power_ref': run_power_ref, 'cg': run_cg, 'cgn': run_cgn, 'landweber': run_landweber, 'kaczmarz': run_kaczmarz,
+_RUN = {'history': run_history, 'steprule': run_steprule, 'power_ref': run_power_ref, 'cg': run_cg, 'cgn': run_cgn, 'landweber': run_landweber, 'kaczmarz': run_kaczmarz,
         'smooth': run_smooth, 'linesearch': run_linesearch, 'power': run_power, 'ns': run_ns}
 
 
@@ -2074,7 +2393,7 @@ def trace_functions():
             PD.pdhg, PD.pdhg_stepsize, DRM.douglas_rachford_pd, DRM.douglas_rachford_pd_stepsize,
             FB.forward_backward_pd, PGS.proximal_gradient, PGS.accelerated_proximal_gradient,
             AD.admm_linearized, GR.steepest_descent, SL.BacktrackingLineSearch.__call__,
-            OU.power_method_opnorm]
+            OU.power_method_opnorm, odl.Operator.norm]
 
 
 def summarize(results):
@@ -2083,7 +2402,11 @@ def summarize(results):
     worst_acc = {}
     inadm = 0
     fp = {}
+    stale = hist = 0
     for cfg, res in results:
+        if cfg.get('kind') == 'history':
+            hist += 1
+            stale += res.get('stale') or 0
         if cfg.get('kind') != 'ns':
             continue
         d = res.get('diag') or [0, 0]
@@ -2100,6 +2423,8 @@ def summarize(results):
     return {'diagnostic_lyapunov_runs': diag_runs,
             'diagnostic_nonmonotone': diag_non,
             'default_step_rule_inadmissible_states': inadm,
+            'operator_history_states': hist,
+            'diagnostic_norm_request_answered_with_earlier_value': stale,
             'fixed_point_step_settings_checked': dict(sorted(fp.items())),
             'max_iterations_to_converge': dict(sorted(worst.items())),
             'max_iterations_accelerated_pdhg': dict(sorted(worst_acc.items())),
@@ -2157,6 +2482,18 @@ def meta(tier):
                                   'from the first step on operators scaled by {1/4, 1/16, 4}; a '
                                   'verdict needs Operator.norm(estimate=True) >= 0.975 ||L|| '
                                   '(otherwise counted as unspecified)',
+            'operator_histories': 'per matrix operator (rect pool over {-1,0,1}, SPD pool as '
+                                  'self-adjoint operator; ill / weighted / scaled by 1/16, 4): past '
+                                  'in {none, evaluated (+ adjoint.norm), solver before, '
+                                  'op.norm(estimate=True, xstart in basis + {-1,1/2,2}^n + weakly '
+                                  'aligned (v_min + 2^-10 v_max; element and list), maxiter in '
+                                  '{shortest, 2 x shortest}; maxiter=20 with rtol=1/2; noise start)} '
+                                  'x then {landweber default omega, pdhg_stepsize (none / tau / '
+                                  'sigma given), douglas_rachford_pd_stepsize ([op], [op, op], tau / '
+                                  'sigma given)} on the same object; non-smooth pool: one x* per '
+                                  'family and space, coarse request from {weak, e_0, e_last} on '
+                                  'every L_i and the assembled BroadcastOperator, then pdhg / '
+                                  'douglas_rachford_pd with default / tau-only / sigma-only steps',
             'cg_iterations': 'n + 2', 'cgn_iterations': 'n + 2', 'landweber_iterations': 8,
             'kaczmarz_sweeps': 3,
             'landweber_omega*|A|^2': LW_OMEGA + ['default'],
@@ -2198,6 +2535,17 @@ def meta(tier):
             'default step rules use the power method from a random start; numpy.random is seeded '
             'from the configuration; if the resulting steps violate the documented condition '
             '(estimate below the true norm) the run is counted, not judged',
+            'operator histories: Operator.norm documents "kwargs: If estimate is True, pass these '
+            'arguments to the power_method_opnorm call", so a coarse request (few iterations, own '
+            'start) is a legitimate earlier use; the default steps taken afterwards are judged '
+            'against the true norm like everywhere else; the quality gate of the estimate (>= '
+            '0.975 ||L||) is evaluated on an operator object WITHOUT a past (power_method_opnorm '
+            'directly, same seeded noise).  Whether a later norm request with other arguments is '
+            'answered with the earlier value is counted '
+            '(coverage.diagnostic_norm_request_answered_with_earlier_value), not judged.  '
+            'Operator.norm: the branch that returns a stored estimate is dead code in the pinned '
+            'tree (the attribute is stored name-mangled and looked up unmangled) - its line is '
+            'listed as unreached',
             'accelerated_proximal_gradient is run with gamma <= 1/Lip only (its docstring names '
             '0 < gamma < 2/Lip as necessary, FISTA theory needs gamma <= 1/Lip)',
             'exceptions of newton / bfgs / broyden / nonlinear CG (not named by the property) and '
